@@ -314,12 +314,28 @@ def obligations(prog):
                 obs.append(Obligation("R-CHK", "R-CHK:%s:carrier:%s#%d" % (fn.name, v, len([1 for k in seen_c if k[0] == fn.name and k[1] == v])), el.loc, fn.name,
                                       "`%s` takes over the failure flag %s in %s: it must be read before it is overwritten or a non-zero return" % (v, flag, fn.name),
                                       m is None, ("`%s`; read on every path" % show(el.e)[:60]) if m is None else "`%s`: %s at %s" % (show(el.e)[:60], m[0], m[1])))
+    # results that are ignored on purpose: turning them into a rejection refuses inputs the specification accepts
+    for (fn_, callee_, props_, why_) in MUST_IGNORE:
+        f_ = prog.fn(fn_)
+        cs = [(el, c) for el, c in f_.all_calls() if callee_name(c) == callee_]
+        if not cs:
+            raise AnalysisBroken("R-CHK: %s no longer calls %s" % (fn_, callee_))
+        for el, c in cs:
+            used_val = not (el.top and (el.e is c or (kind(el.e) == "call" and el.e[2] == c[2])))
+            obs.append(Obligation("R-CHK", "R-CHK:%s:%s:ignored" % (fn_, callee_), el.loc, fn_,
+                                  "the result of %s stays ignored in %s: %s" % (callee_, fn_, why_), not used_val,
+                                  "the call is a statement of its own" if not used_val else "the result is used: `%s`" % show(el.e)[:80], props=props_))
     stale = sorted(set(exc) - used - {"_comment"})
     if stale:
         raise AnalysisBroken("R-CHK: exception table entries match no call site any more: %s" % ", ".join(stale))
     return obs, {"fallible_functions": len(fall), "call_sites": len(sites), "seed_decoders": len(SEED)}
 
 
+MUST_IGNORE = [
+    ("secp256k1_whitelist_compute_keys_and_message", "secp256k1_whitelist_tweak_pubkey", {"C16"},
+     "it fails only when offline_j + W is the point at infinity, where the specified ring key is online_j — which is what the code then uses; "
+     "rejecting makes every signer and verifier fail for a list that contains such a pair"),
+]
 OPTIONAL_SEEDS = {"secp256k1_ge_x_frac_on_curve_var"}
 
 
